@@ -137,6 +137,19 @@ def build_engine():
     return exe
 
 
+def build_asmline():
+    """the CLI tool, built like the project does (gcc -O2) from /repo/tools/asmline.c and the plain library objects"""
+    d, changed = build_lib("plain")
+    exe = os.path.join(d, "asmline")
+    src = os.path.join(REPO, "tools", "asmline.c")
+    dg = digest([src], open(os.path.join(d, "stamp")).read())
+    st = exe + ".stamp"
+    if not (os.path.exists(exe) and os.path.exists(st) and open(st).read() == dg):
+        sh(f"gcc -O2 -g -std=gnu99 -Wall -Wextra -I{REPO}/src {src} {' '.join(lib_objs('plain'))} -o {exe}")
+        open(st, "w").write(dg)
+    return exe
+
+
 def build_engine_fi():
     """the same engine linked against the fault-injectable library objects (used by C17 and C19)"""
     build_engine()
@@ -160,6 +173,7 @@ if __name__ == "__main__":
         if w == "engine":
             print(build_engine())
             print(build_engine_fi())
+            print(build_asmline())
         else:
             print(build_lib(w))
     print("build %.1fs" % (time.time() - t))
